@@ -32,6 +32,8 @@ MANIFEST = {
 }
 BUDGET = {'quick': 80, 'thorough': 1500}
 MISMATCH_BUDGET = 0.0
+ESCALATE_BUDGET = 200
+SEARCH_BUDGET = 150
 RULE = ('event lists with 0-2 gradient events per channel (trapezoid, triangle, extended trapezoid, arbitrary) mixed with '
         'RF, ADC, delay and label events in random order; axes x, y, z; angles 0, +-pi/2, pi, tiny, random. Oracle: exact '
         'rendering of inputs and outputs at corner times, +-raster/8, midpoints (raster centres when an arbitrary gradient '
@@ -390,7 +392,7 @@ def corpus():
 
 
 def run(ctx):
-    n = {'quick': 700, 'thorough': 30000}[ctx.tier]
+    n = {'quick': 1300, 'thorough': 30000}[ctx.tier]
     rng = ctx.rng('rotate')
     cases = corpus() + [gen_case(rng) for _ in range(n)]
     for i, c in enumerate(cases):
